@@ -534,7 +534,17 @@ J hash_gen(std::uint64_t seed, int tier, long) {
         st.set("classes", cls);
         st.set("seed", J((unsigned long long)(r.chance(0.3) ? 0 : 1 + r.below(1u << 30))));
         static const int budgets[] = {0, 0, 0, 0, 1, 1, 2, 3, 10, 100};
-        st.set("budget", budgets[r.below(10)]);
+        int budget = budgets[r.below(10)];
+        std::size_t nids = 0;
+        for (auto& ids : cur)
+            nids += ids.size();
+        if (budget == 0 && nids > 150) {
+            // the shipped budget on hundreds of ids can cost minutes of CPU
+            // per step: keep the search bounded there
+            static const int big[] = {1, 3, 10, 100, 1000, 5000};
+            budget = big[r.below(6)];
+        }
+        st.set("budget", budget);
         steps.push(st);
     }
     c.set("steps", steps);
